@@ -232,5 +232,13 @@ func (c *Collection) readChunk(chunk commit.Chunk, fn func(uint64, commit.Chunk,
 	c.lock.Lock()
 	defer c.slock.RUnlock(uint(chunk))
 	defer c.lock.Unlock()
-	return fn(c.commits[chunk], chunk, chunk.OfBitmap(c.fill))
+
+	// A chunk may exist in the fill list only because a transaction which has not
+	// committed yet reserved an offset in it: no commit has touched such a chunk, so
+	// there is no commit ID for it yet.
+	var last uint64
+	if int(chunk) < len(c.commits) {
+		last = c.commits[chunk]
+	}
+	return fn(last, chunk, chunk.OfBitmap(c.fill))
 }
